@@ -2,9 +2,9 @@
    (handler level).  Statements only; proofs in Proofs/AppendProofs.v and Proofs/ClusterLog*.v. *)
 From Coq Require Import List NArith Lia.
 From stdpp Require Import gmap.
-From RaftModel Require Import Base Config Node NodeCodec Cluster ClusterLog.
+From RaftModel Require Import Base Config Node NodeCodec Cluster ClusterLog ClusterCommit ClusterSnap.
 From RaftProofs Require Import AppendProofs ClusterProofs ClusterLogSpec ClusterLogMain ClusterLogExample
-  ClusterLogSnapSpec ClusterLogSnapMain ClusterLogSnapCex ClusterLogSnapExample.
+  ClusterLogSnapSpec ClusterLogSnapMain ClusterLogSnapCex ClusterLogSnapExample ClusterSnapCex.
 Open Scope N_scope.
 
 (* ================= LOG MATCHING OVER ALL RUNS OF THE CLUSTER (Model/ClusterLog.v) =================
@@ -53,6 +53,15 @@ Example C04_snapshot_runs_exist :
   linit_snap_ok snap_g0 /\
   match lrun true [mk_cfg 3] snap_g0 snap_labels with Some g => took_snapshot g 2 | None => false end = true.
 Proof. split; [exact snap_init_ok | exact snapshots_do_happen]. Qed.
+
+(* WITH SNAPSHOT TRANSFER in the system (Model/ClusterSnap.v: sendLatestSnapshot / installSnapshot added to
+   the cluster with commitment) Log Matching is FALSE on this code - known finding F3-ii: a server that
+   installs a snapshot keeps a stale never-committed entry below the snapshot index in its log store.
+   The witness is a script component 104 found on REAL servers (model and servers agreed step by step);
+   it runs first in every C04 check. *)
+Theorem C04_log_matching_with_snapshot_transfer_refuted :
+  exists ls g, srun [mk_cfg 3] f3ii_init ls = Some g /\ ~ log_matching (lg_of g).
+Proof. exact log_matching_with_snapshot_transfer_refuted. Qed.
 
 (* ================= THE HANDLER (appendEntries) ================= *)
 
